@@ -5,7 +5,6 @@ import (
 	"go/ast"
 	"go/token"
 	"go/types"
-	"os"
 	"sort"
 	"strings"
 )
@@ -335,11 +334,6 @@ func (a *analysis) invoke(c *ctx, f *fn, entry []*state) []*state {
 		}
 		exits = dedupe(exits)
 		delete(a.active, key)
-		if os.Getenv("LF_DEBUG") == f.name {
-			for _, e := range exits {
-				fmt.Fprintf(os.Stderr, "exit %s held=%v ret=%d retT=%s\n", key, e.classes(), e.ret, e.retT)
-			}
-		}
 		a.memo[key] = exits
 		out = append(out, exits...)
 	}
